@@ -328,6 +328,8 @@ class CallMixin:
             p = self.get_payload(recv.ref)
             if name == "get" and isinstance(args[0], VStr) and args[0].kind == "lit":
                 return p.items.get(args[0].a, args[1] if len(args) > 1 else NONE)
+            if name == "items":
+                return VTuple([VTuple([VStr.lit(k), v]) for k, v in p.items.items()])
         return self.method_special(recv, name, args, kwargs, node, fr)
 
     def method_special(self, recv, name, args, kwargs, node, fr):
@@ -509,8 +511,15 @@ class CallMixin:
             for m in c.modifies:
                 self.havoc_heap_path(m, sub, {})
             result = NONE
+            rd = c.ghost.get("result_dict") if c.ghost else None
+            if rd:
+                ref = self.new_ref(f"ret_{short}")
+                self.payload[ref] = PyDictP({k: self.sym_for_type(ty, f"{ref}[{k}]") for k, ty in rd.items()})
+                result = VDict(ref)
             rf = c.ghost.get("result_fun") if c.ghost else None
-            if rf:
+            if rd:
+                pass
+            elif rf:
                 result = self.apply_strfun(rf, [v for k, v in sub.locals.items() if isinstance(v, (VInt, VBool)) and k != "self"])
             elif c.result:
                 result = self.sym_for_type(c.result, self.new_ref(f"ret_{short}"))
